@@ -401,10 +401,10 @@ class CrawlScenario:
     def do_slice(self):
         r = self.rng
         cs = self.crawlers()
-        timers = [(c.timer.getTime(), k) for k, c in cs.items() if c.timer is not None and c.timer.active()]
-        if not timers:
+        calls = [dc.getTime() for dc in vr.getDelayedCalls()]      # only the crawlers have timers here
+        if not calls:
             return False
-        t = min(timers)[0]
+        t = min(calls)
         self.plans = {}
         for k in cs:
             x = r.random()
